@@ -76,6 +76,7 @@ func registerHostileTitles() {
 			hostileTitleLevels = append(hostileTitleLevels, l)
 		}
 	}
+	gen.ExtraLevels = hostileTitleLevels // a Level handed over as an attribute VALUE prints its title: a string like any other
 }
 
 // titleOf is the name a record of that severity carries.
